@@ -21,6 +21,8 @@ EXPLANATION = (
 LEVEL_TEXT = ('static table check of ~130 command constructions (name and arity), guard/ordering/pairing rules of the id life '
               'cycle, range rule for per-id loops, structure of the bundle-collecting proxy. Argument types and values are not decided.')
 LEVEL_NOTE = 'command table (scverif/refs/server_cmds.json) is the external oracle'
+LEVEL_TEXT_ADD = ' Also: or-default rule over node/buffer/bus/server (ids and targets defaulted only when None), argument roles of the file commands, dict/sequence embed agreement, completion message evaluated before any state change in Buffer.free.'
+LEVEL_TEXT = (globals().get('LEVEL_TEXT') or EXPLANATION) + LEVEL_TEXT_ADD
 TECHNIQUE = 'static analysis: reference-table arity check of all command literals + path rules (guards, ordering) on id life cycles'
 
 REFS = os.path.join(os.path.dirname(os.path.dirname(__file__)), 'refs')
